@@ -478,6 +478,9 @@ func (w *world) byzVotes() bool {
 			// a block id nobody has
 			return types.BlockID{Hash: make([]byte, 32), PartSetHeader: types.PartSetHeader{Total: 1, Hash: make([]byte, 32)}}
 		default:
+			if rapid.IntRange(0, 7).Draw(w.t, label+".twist") == 0 {
+				return twistPSH(w.t, c[x].id, label)
+			}
 			return c[x].id
 		}
 	}
@@ -951,6 +954,26 @@ func (w *world) ownVote(j int, h int64, r int32, kind string) (types.BlockID, bo
 	return types.BlockID{}, false
 }
 
+// twistPSH returns a block id with the hash of id and ANOTHER part-set header: a vote for "the same block" that is
+// not a vote for the same block id.
+func twistPSH(t *rapid.T, id types.BlockID, label string) types.BlockID {
+	out := types.BlockID{Hash: append([]byte(nil), id.Hash...), PartSetHeader: types.PartSetHeader{Total: id.PartSetHeader.Total, Hash: append([]byte(nil), id.PartSetHeader.Hash...)}}
+	switch rapid.IntRange(0, 2).Draw(t, label+".twistHow") {
+	case 0:
+		out.PartSetHeader.Total++
+	case 1:
+		if len(out.PartSetHeader.Hash) > 0 {
+			out.PartSetHeader.Hash[0] ^= 1
+		}
+	default:
+		out.PartSetHeader.Total += 2
+		if len(out.PartSetHeader.Hash) > 0 {
+			out.PartSetHeader.Hash[len(out.PartSetHeader.Hash)-1] ^= 0x80
+		}
+	}
+	return out
+}
+
 // faultyVotes lets every faulty validator act in (h, r, typ) according to a drawn strategy. The goal-directed
 // strategies are "two-faced" (towards every node of the favoured group vote exactly what that node voted, so that
 // it sees its own value amplified; towards the others vote nil so that they reach +2/3-any and move on) and
@@ -962,7 +985,7 @@ func (w *world) faultyVotes(h int64, r int32, typ tmproto.SignedMsgType, pat pat
 	}
 	for _, k := range w.s.faulty {
 		strat := rapid.SampledFrom([]string{"two-faced", "two-faced", "two-faced", "two-faced", "mirror-all", "mirror-all",
-			"silent", "nil-all", "x-all", "x-group-y-rest", "follow"}).Draw(w.t, label+".strat")
+			"silent", "nil-all", "x-all", "x-group-y-rest", "follow", "follow-twisted"}).Draw(w.t, label+".strat")
 		if f, ok := w.forced[label+".strat"]; ok {
 			strat = f
 		}
@@ -970,8 +993,9 @@ func (w *world) faultyVotes(h int64, r int32, typ tmproto.SignedMsgType, pat pat
 			continue
 		}
 		w.stats.byzVotes++
-		if strat == "follow" {
-			// vote for what most correct nodes voted for in this phase, towards everyone
+		if strat == "follow" || strat == "follow-twisted" {
+			// vote for what most correct nodes voted for in this phase, towards everyone ("twisted": for the same block
+			// hash under another part-set header, and nothing else from this validator)
 			count := map[string]int{}
 			ids := map[string]types.BlockID{}
 			best := ""
@@ -985,7 +1009,11 @@ func (w *world) faultyVotes(h int64, r int32, typ tmproto.SignedMsgType, pat pat
 				}
 			}
 			if best != "" {
-				w.net.InjectVote(k, typ, h, r, ids[best], nil)
+				id := ids[best]
+				if strat == "follow-twisted" && !id.IsZero() {
+					id = twistPSH(w.t, id, label)
+				}
+				w.net.InjectVote(k, typ, h, r, id, nil)
 			}
 			continue
 		}
